@@ -37,6 +37,14 @@ fn c16_rays() {
     assert!(br == sp::s_bishop_rays(s));
 }
 
+// @ob id=O16.3s props=C16,C02 tier=quick kind=proof fn="get_rook_rays,get_bishop_rays" desc="size bound used by the havoc abstraction of the rays: no square has more than 14 rook-ray or 13 bishop-ray squares"
+#[kani::proof]
+fn c16_rays_size() {
+    let s = any_sq_u8();
+    assert!(get_rook_rays(Square::new(s)).popcnt() == 14);
+    assert!(get_bishop_rays(Square::new(s)).popcnt() <= 13);
+}
+
 // @ob id=O16.4 props=C16,C01,C03 tier=quick kind=proof fn="get_king_moves,get_knight_moves" desc="king set = the up to 8 neighbours; knight set = the (1,2)/(2,1) leaps, for all 64 squares, pointwise by coordinate differences and equal to the shift-pattern closed forms"
 #[kani::proof]
 fn c16_king_knight() {
